@@ -24,6 +24,12 @@ structure FloatRes where
   err : Option NumErr
   deriving Repr, DecidableEq
 
+/-- the reader's view: a value only when `err == nil` -/
+def FloatRes.toExcept (r : FloatRes) : Except NumErr F64.Bits :=
+  match r.err with
+  | none => .ok r.val
+  | some e => .error e
+
 /-! ### special -/
 
 def foldc (c : UInt8) : UInt8 := if 65 ≤ c && c ≤ 90 then c + 32 else c
